@@ -26,6 +26,9 @@ func (du *decodeUnit) cycle(app risc.Application, ctx *risc.Context, inBus *comp
 	if ctx.Debug {
 		fmt.Printf("\tDU: Decoding instruction %d\n", pc/4)
 	}
+	if int(pc)/4 >= len(app.Instructions) {
+		return
+	}
 	runner := app.Instructions[pc/4]
 	// Clear forward (the program may have been run by a forwarding machine)
 	runner.Forward(risc.Forward{})
